@@ -451,6 +451,10 @@ func (vfs *BasePathFS) Rename(oldname, newname string) error {
 		info, e := vfs.baseFS.Stat(vfs.Dir(vfs.ToBasePath(newname)))
 		if pe, ok := e.(*fs.PathError); ok {
 			err = pe.Err
+			if err == avfs.ErrWinFileNotFound {
+				// a missing directory of the new name is a path that can't be found.
+				err = avfs.ErrWinPathNotFound
+			}
 		} else if e == nil && !info.IsDir() {
 			err = avfs.ErrNotADirectory
 			if vfs.OSType() == avfs.OsWindows {
